@@ -129,7 +129,7 @@ func oracleHas(c *Ctx, id string) bool {
 		return false
 	}
 	line := strings.TrimSpace(out.String())
-	return line != "" && !strings.HasPrefix(line, "ERR")
+	return line != "" && !strings.HasPrefix(line, "ERR unknown id")
 }
 
 func usesExtPartial(p *Prog) bool {
